@@ -155,6 +155,20 @@ class Pair:
 
 
 def noise(rnd):
+    # instances built through every optional constructor parameter the harness does not know (new options of the library
+    # under test, given non-default values) are used first: whatever they configure must stay theirs
+    try:
+        import impl_driver
+        for cls in (Encoder, Decoder):
+            o = impl_driver.with_options(cls)
+            if cls is Encoder:
+                o.encode([('x-a', '1'), ('cookie', 'c'), (':path', '/x'), ('k', 'v'), ('etag', 'e')])
+                o.header_table_size = 100
+                o.encode([('x-b', '2'), ('cookie', 'c')])
+            else:
+                o.decode(b'\x82\x40\x01k\x01v\xbe')
+    except Exception:
+        pass
     for _ in range(6):
         p = Pair()
         for op in gen_pair_history(rnd):
